@@ -406,13 +406,9 @@ def _hyp_h1():
         st.tuples(spliced(st.sampled_from(base_names), 1), spliced(st.sampled_from(base_vals), 1)).map(list),
         st.tuples(st.sampled_from(["Host", "host", "User-Agent", "Accept-Encoding", "ACCEPT-ENCODING", "X-A"]), st.just(SKIP)).map(list),
     )
-    req = st.fixed_dictionaries(
-        {
-            "method": method, "path": path, "query": query, "fragment": frag,
-            "headers": st.lists(hdr, max_size=3), "container": st.sampled_from(["dict", "dict", "hd"]),
-            "body": bodies, "chunked": st.booleans(), "name_bytes": st.sampled_from([False, False, False, True]),
-        }
-    )
+    # a tuple mapped to a dict (not fixed_dictionaries: with this many keys Hypothesis' fuzz_one_input rejects every buffer)
+    keys = ("method", "path", "query", "fragment", "headers", "container", "body", "chunked", "name_bytes")
+    req = st.tuples(method, path, query, frag, st.lists(hdr, max_size=3), st.sampled_from(["dict", "dict", "hd"]), bodies, st.booleans(), st.sampled_from([False, False, False, True])).map(lambda t: dict(zip(keys, t)))
 
     def fix(r):
         if r["container"] == "hd":
@@ -444,11 +440,25 @@ def shards(tier, seed):
         out.append({"part": "random", "n": n // nsh, "seed": core.derive_seed(seed, "r", i)})
     L = 2 if tier == "quick" else 3
     out.append({"part": "h2", "L": L})
+    from vlib import fuzz
+
+    out += fuzz.shards("C10", tier, seed, quick=(2, 2000), thorough=(16, 60000))
     return out
+
+
+def fuzz_strategy(which):
+    return _hyp_h1(), (lambda c: c)
 
 
 def run_shard(spec):
     col = core.Collector()
+    if spec["part"] == "atheris":
+        import sys
+
+        from vlib import fuzz
+
+        fuzz.run_shard(col, sys.modules[__name__], spec)
+        return col
     part = spec["part"]
     if part == "splice":
         for i, case in enumerate(splice_cases()):
